@@ -4,8 +4,25 @@ from string import ascii_lowercase, ascii_uppercase, ascii_letters, digits, punc
 
 ALPHABETS = {
     'lower': ascii_lowercase, 'upper': ascii_uppercase, 'letters52': ascii_lowercase + ascii_uppercase,
-    'abc': 'abc', 'atm': 'atm', 'scrambled': 'qwertyuiopasdfghjklzxcvbnm', 'dups': 'abracadabra',
+    'abc': 'abc', 'atm': 'atm', 'scrambled': 'qwertyuiopasdfghjklzxcvbnm', 'dups': 'abracadabra', 'wxyz2': 'wWxXyYzZ',
 }
+
+def fold(text, case):
+    return text.upper() if case == 'u' else text.lower() if case == 'l' else text
+
+def passes_on(mg, chars, case, **kw):
+    """what the real rectangular() hands to node_name_from_number"""
+    captured = []
+    orig = mg.mulgrid.node_name_from_number
+    def spy(self, num, justfn, chs, sp):
+        captured.append(chs); return orig(self, num, justfn, chs, sp)
+    mg.mulgrid.node_name_from_number = spy
+    try:
+        try: g = mg.mulgrid().rectangular(kw.pop('xblocks', [1.0]), [1.0], kw.pop('zblocks', [1.0]), chars=chars, case=case, **kw)
+        except Exception as ex: g = ex
+    finally:
+        mg.mulgrid.node_name_from_number = orig
+    return g, (captured[0] if captured else None)
 
 def uniq(s):
     out = ''
@@ -62,10 +79,16 @@ def gen_call(mg, g, kind, num, just, chars, spaces):
 
 def replay_gen(mg, d):
     kind, conv, just, spaces = d['kind'], d['conv'], d['just'], d['spaces']
-    chars = uniq(ALPHABETS[d['alpha']])
-    g = mg.mulgrid(convention=conv)
-    L = name_length(kind, conv); cap = capacity(kind, conv, len(chars), spaces)
+    base, _, case = d['alpha'].partition('^')
+    want = uniq(fold(ALPHABETS[base], case or None))
     probs = []
+    if case:        # the set as the real rectangular() prepares it
+        _, chars = passes_on(mg, ALPHABETS[base], case)
+        if chars != want: probs.append('rectangular(chars=%r, case=%r) passes %r to the name generators, expected %r' % (ALPHABETS[base], case, chars, want))
+    else:
+        chars = want
+    g = mg.mulgrid(convention=conv)
+    L = name_length(kind, conv); cap = capacity(kind, conv, len(want), spaces)
     names = {}
     for tag in ('i', 'j'):
         num = int(d[tag])
@@ -76,7 +99,7 @@ def replay_gen(mg, d):
             continue
         if not isinstance(nm, str) or len(nm) != L: probs.append('%s=%d gives %r, length is not %d' % (tag, num, nm, L)); continue
         if num > cap: probs.append('%s=%d gives %r beyond capacity %d' % (tag, num, nm, cap))
-        if not well_formed(nm, kind, conv, just, chars, spaces, num): probs.append('%s=%d gives malformed name %r' % (tag, num, nm))
+        if not well_formed(nm, kind, conv, just, want, spaces, num): probs.append('%s=%d gives malformed name %r' % (tag, num, nm))
     if names['i'] is not None and names['i'] == names['j'] and int(d['i']) != int(d['j']):
         probs.append('numbers %d and %d both get the name %r' % (int(d['i']), int(d['j']), names['i']))
     return probs
@@ -232,9 +255,33 @@ def replay_uniq(mg, d):
     return []
 
 
+def replay_rect(mg, d):
+    text, case, spaces, conv, just, nx = d['text'], d['case'], d['spaces'], d['conv'], d['just'], d['nx']
+    want = uniq(fold(text, case))
+    g, passed = passes_on(mg, text, case, xblocks=[1.0] * nx, zblocks=[1.0, 1.0], convention=conv, atmos_type=1, justify=just, spaces=spaces)
+    probs = []
+    if passed is not None and passed != want:
+        probs.append('rectangular(chars=%r, case=%r) passes %r to the name generators, expected %r' % (text, case, passed, want))
+    if isinstance(g, mg.NamingConventionError):
+        if 2 * (nx + 1) <= capacity('node', conv, len(want), spaces) and 2 <= capacity('layer', conv, len(want), spaces):
+            probs.append('NamingConventionError although the grid fits the name space of %r' % want)
+        return probs
+    if isinstance(g, Exception):
+        return probs + ['rectangular(chars=%r, case=%r) raised %s: %s' % (text, case, type(g).__name__, g)]
+    nodes = [x.name for x in g.nodelist]; cols = [x.name for x in g.columnlist]; lays = [x.name for x in g.layerlist]
+    blks = list(g.block_name_list)
+    if (len(nodes), len(cols), len(lays), len(blks)) != (2 * (nx + 1), nx, 3, 3 * nx):
+        probs.append('%d nodes, %d columns, %d layers, %d blocks instead of %d, %d, 3, %d' % (len(nodes), len(cols), len(lays), len(blks), 2 * (nx + 1), nx, 3 * nx))
+    for what, xs in (('node', nodes), ('column', cols), ('layer', lays), ('block', blks)):
+        if len(set(xs)) != len(xs): probs.append('duplicate %s names: %r' % (what, xs))
+    if any(len(b) != 5 for b in blks): probs.append('block name not five characters')
+    if len(g.block_name_index) != len(blks): probs.append('block index lost an entry')
+    return probs
+
+
 def replay(d):
     import mulgrids as mg
-    fn = {'gen': replay_gen, 'roundtrip': replay_roundtrip, 'addlayers': replay_addlayers, 'newkey': replay_newkey,
+    fn = {'gen': replay_gen, 'rect': replay_rect, 'roundtrip': replay_roundtrip, 'addlayers': replay_addlayers, 'newkey': replay_newkey,
           'fix': replay_fix, 'mapping': replay_mapping, 'uniq': replay_uniq}[d['task']]
     try:
         probs = fn(mg, d)
